@@ -166,6 +166,9 @@ func propC14(c *Ctx, r *Report) {
 	c.runOperandOrder(r, "order.ir", inPkgs("ir"))
 	c.runOperandOrder(r, "order.msl", inPkgs("msl"))
 	r.floor("order.ir", orderFloors["ir"])
+	r.Clauses = append(r.Clauses, "literal text (E10): no strconv.Parse* / Atoi / fmt.Sscan* call in the frontend receives the raw Value text of a parser.Literal (which keeps the WGSL suffix and may be hexadecimal); numeric text goes through the lowerer's literal parsers, so @workgroup_size(64u), @align(0x10), @id(3u) and suffixed override defaults are not silently replaced by defaults")
+	c.runLiteralRawParse(r, "literal.rawparse", inPkgs("wgsl"), literalRawParseExceptions)
+	r.floor("literal.parses", 25)
 	r.Clauses = append(r.Clauses, signExtClause+" - here: conversion of supplied pipeline-constant values and literals into ScalarValues")
 	c.runSignExt(r, "conv.signext", inPkgs("msl", "ir", "glsl", "hlsl", "spirv"))
 	r.floor("conv.signext", 3)
